@@ -5,6 +5,7 @@
 //! trusted: env: LocalHTLCFailureReason is a three-variant skeleton (the two variants the block names + Other(code)); its predicates is_badonion / is_node / is_permanent / is_temporary / is_recipient_failure / get_onion_debug_field are external_body with unconstrained answers (any code table); ErrorHop / RouteHop / TrampolineHop / FailureLearnings are the function-local types re-declared (ErrorHop::{pubkey, short_channel_id} external_body with the bodies' meaning); NetworkUpdate is extracted; PublicKey opaque Copy; R3: log statements removed; R8: `v.get(a..b)` on the failure message -> get_range (Some iff a <= b <= len), `u16::from_be_bytes(s.try_into().expect(..))` -> be16 (unconstrained value)
 //! assume: the path has no trampoline hops: the hop that sent the failure and the failing hop are ErrorHop::RouteHop; when the failure is from the final node the failing hop is that hop (how the caller chooses failing_route_hop)
 //! trusted: assume_specification for core::cmp::max / core::cmp::min (std definitions): present in every unit so that a change that introduces them is verified instead of being rejected by the tool
+//! trusted: onchain_failed: ChannelMonitor::get_onchain_failed_outbound_htlcs: the test that recognises the confirmed transaction as a counterparty commitment and the burial test of the funding spend are deep R15 slices; R8: `Some(x) == opt` on txids -> opt_txid_eq (verified helper); walking the HTLCs (closure inside a macro) is dropped and not claimed
 use vstd::prelude::*;
 verus! {
 use vstd::std_specs::cmp::*;
@@ -76,5 +77,47 @@ pub open spec fn scid_of(h: ErrorHop) -> u64 { match h { ErrorHop::RouteHop(rh) 
 //@with
     payment_failed_permanently: error_code.is_permanent(),
 //@end
+
+// ---- restart: which outbound HTLCs a monitor reports as failed on chain (ChannelMonitor::get_onchain_failed_outbound_htlcs) ----
+pub mod onchain_failed {
+use vstd::prelude::*;
+#[derive(Clone, Copy)] pub struct Txid(pub u64);
+impl vstd::std_specs::cmp::PartialEqSpecImpl for Txid { open spec fn obeys_eq_spec() -> bool { true } open spec fn eq_spec(&self, other: &Txid) -> bool { self.0 == other.0 } }
+impl PartialEq for Txid { fn eq(&self, o: &Txid) -> (r: bool) { self.0 == o.0 } }
+pub struct FundingScope { pub current_counterparty_commitment_txid: Option<Txid>, pub prev_counterparty_commitment_txid: Option<Txid> }
+pub fn opt_txid_eq(a: Option<Txid>, b: Option<Txid>) -> (r: bool) ensures r == (a == b) { match (a, b) { (Some(x), Some(y)) => x.0 == y.0, (None, None) => true, _ => false } }
+//@const lightning/src/chain/channelmonitor.rs ANTI_REORG_DELAY
+//@extract lightning/src/chain/channelmonitor.rs :: impl ChannelMonitor :: fn get_onchain_failed_outbound_htlcs
+//@slice R15
+    if $c:cond { let htlcs = funding.counterparty_claimable_outpoints.get(&confirmed_txid).unwrap();
+//@with
+    fn confirmed_tx_is_a_counterparty_commitment(confirmed_txid: Txid, funding: &FundingScope) -> bool { $c }
+//@rw * R8
+    Some(confirmed_txid) == funding.$f:ident
+//@with
+    opt_txid_eq(Some(confirmed_txid), funding.$f)
+//@ret r
+//@ensures P C03 on-restart-a-confirmed-counterparty-commitment-is-recognised-whether-it-is-the-current-or-the-previous-unrevoked-one-so-its-live-htlcs-are-not-reported-failed
+    r == (funding.current_counterparty_commitment_txid == Some(confirmed_txid) || funding.prev_counterparty_commitment_txid == Some(confirmed_txid)),
+//@mutant previous_unrevoked_commitment_not_recognised
+    if Some(confirmed_txid) == funding.current_counterparty_commitment_txid || Some(confirmed_txid) == funding.prev_counterparty_commitment_txid {
+//@with
+    if Some(confirmed_txid) == funding.current_counterparty_commitment_txid {
+//@end
+//@extract lightning/src/chain/channelmonitor.rs :: impl ChannelMonitor :: fn get_onchain_failed_outbound_htlcs
+//@slice R15
+    if let OnchainEvent::FundingSpendConfirmation { .. } = event.event { if $c:cond { Some(event.txid) } else { None } } else { None }
+//@with
+    fn funding_spend_is_buried(event: &EventStub, us: &MonStub) -> bool { $c }
+//@ret r
+//@requires
+    event.height < 0xffff_0000,
+//@ensures P C03 on-restart-htlcs-are-reported-failed-only-against-a-commitment-that-has-reached-the-anti-reorg-depth
+    r == (us.best_block.height as int - event.height as int + 1 >= ANTI_REORG_DELAY as int),
+//@end
+pub struct EventStub { pub height: u32, pub txid: Txid }
+pub struct BestBlock { pub height: u32 }
+pub struct MonStub { pub best_block: BestBlock }
+}
 }
 fn main() {}
